@@ -259,9 +259,12 @@ impl<'a> Ctx<'a> {
                     tj.class = "passed-without-exit-code";
                     tj.why = "shell could not be started".into();
                 } else {
+                    // (whatever the reason: an expression that never reached a shell has not
+                    // "terminated with the expected exit code")
                     tj.must_run = Some(true);
-                    tj.allowed = Allowed::Anything;
-                    tj.why = "not delivered".into();
+                    tj.allowed = Allowed::NotSuccess;
+                    tj.class = "passed-though-never-run";
+                    tj.why = "never handed to a shell".into();
                 }
                 j.tests.push(tj);
                 continue;
